@@ -36,6 +36,7 @@ class FakeBleClient:
         self._cb = disconnected_callback
         self.mtu = rig.mtu
         self.ops = []
+        self.notifying = {}  # iid -> callback: characteristics this GATT connection has notifications enabled for
 
     async def get_characteristic(self, service_type, char_type, iid=None):
         for ch in self.acc.chars.values():
@@ -72,7 +73,16 @@ class FakeBleClient:
         return bytearray(data)
 
     async def start_notify(self, handle, cb):
+        await self.rig.gate("start_notify", handle.iid, None)
+        fail = getattr(self.rig, "start_notify_fail", None)
+        if fail and handle.iid in fail:
+            raise fail.pop(handle.iid)  # this one CCCD write fails (the link stays up)
+        if not self.is_connected:
+            from bleak.exc import BleakError
+
+            raise BleakError("Not connected")
         self.rig.notify[handle.iid] = cb
+        self.notifying[handle.iid] = cb
 
     async def clear_cache(self):
         pass
